@@ -103,6 +103,17 @@ func Err(code int, data any) *Error {
 }
 
 func (r *Request) isSane() error {
+	// The id is checked first: callers echo the request id in the error response unless
+	// the error is ErrInvalidID, and an ill-typed id must never be echoed, whatever else
+	// is wrong with the request.
+	if r.ID != nil {
+		idType := reflect.TypeOf(r.ID)
+		floating := idType.Name() == "Number" && strings.Contains(r.ID.(json.Number).String(), ".")
+		if (idType.Kind() != reflect.String && idType.Name() != "Number") || floating {
+			return ErrInvalidID
+		}
+	}
+
 	if r.Version != "2.0" {
 		return errors.New("unsupported RPC request version")
 	}
@@ -114,14 +125,6 @@ func (r *Request) isSane() error {
 		paramType := reflect.TypeOf(r.Params)
 		if paramType.Kind() != reflect.Slice && paramType.Kind() != reflect.Map {
 			return errors.New("params should be an array or an object")
-		}
-	}
-
-	if r.ID != nil {
-		idType := reflect.TypeOf(r.ID)
-		floating := idType.Name() == "Number" && strings.Contains(r.ID.(json.Number).String(), ".")
-		if (idType.Kind() != reflect.String && idType.Name() != "Number") || floating {
-			return ErrInvalidID
 		}
 	}
 
